@@ -41,6 +41,8 @@ Blame ==
   @@ "exit.loop.callback" :> {"C03"}
   @@ "cb.pb.undrained" :> {"C04", "C05", "C03"}
   @@ "exit.how"   :> {"C06"}
+  @@ "exit.client.await" :> {"C04"} @@ "exit.client.await_ref" :> {"C04"} @@ "exit.client.halt" :> {"C04"} @@ "exit.client.try_halt" :> {"C04"}
+  @@ "exit.client.join" :> {"C17"} @@ "exit.client.call" :> {"C02"} @@ "exit.client.send" :> {"C02"}
   @@ "oe.actor.clone" :> {"C15"} @@ "oe.actor.downgrade" :> {"C15"} @@ "oe.actor.upgrade" :> {"C15"}
   @@ "oe.actor.sender" :> {"C15"} @@ "oe.actor.caller" :> {"C15"} @@ "oe.actor.weak_sender" :> {"C15"}
   @@ "oe.actor.weak_caller" :> {"C15"} @@ "oe.actor.to_addr" :> {"C15", "C17"} @@ "oe.actor.detach" :> {"C17"}
